@@ -91,11 +91,11 @@ func (p *Validator) ValidateReader(r io.Reader) error {
 		} else {
 			err = p.validateBuffer(buf, eof)
 		}
-		skip = 0
 		if err != nil {
 			return err
 		}
-		p.noff -= len(buf)
+		p.noff -= len(buf) - skip
+		skip = 0
 		if eof {
 			break
 		}
@@ -332,7 +332,7 @@ func (p *Validator) validateBuffer(buf []byte, last bool) error {
 		}
 	}
 	if last && (0 < len(p.stack) || len(p.mode) == 256) { // valid finishing maps are one byte longer
-		return p.newError(off, "incomplete JSON")
+		return p.newError(len(buf), "incomplete JSON")
 	}
 	return nil
 }
